@@ -57,6 +57,7 @@ def scn(sym, cov, parties, buf, cancel=None, native=False, eager=False, T=1, J=2
     wait_id: dict = {}
     swait: list = []  # items currently inside a blocking send, in call order
     overtaken: list = []  # (winner party, [parties ahead]) for receive
+    enq_cycle: dict = {}  # item -> earliest loop cycle at which it can have been buffered / parked
     s_overtaken: list = []  # (item received, [items whose send was blocked earlier and are still blocked])
     ended: dict = {}  # party -> how it ended
     open_tx: set = set()
@@ -107,7 +108,9 @@ def scn(sym, cov, parties, buf, cancel=None, native=False, eager=False, T=1, J=2
             overtaken.append((i, ahead))
             already = [it for (_p, it) in recv_log]
             # senders that were blocked earlier, are still inside send() and whose item has NOT been received yet
-            blocked_before = [it for it in swait if it != item and it not in already and send_order.index(it) < send_order.index(item)] if item in send_order else []
+            # ("blocked earlier" = parked strictly earlier: a blocking send() parks, at the earliest, one loop cycle after it was
+            # called -- its entry checkpoint -- while a send_nowait() is accepted in the cycle of the call; ties are not judged)
+            blocked_before = [it for it in swait if it != item and it not in already and enq_cycle.get(it, 1 << 30) < enq_cycle.get(item, -1)] if item in send_order else []
             s_overtaken.append((item, blocked_before))
             recv_log.append((i, item))
 
@@ -146,6 +149,7 @@ def scn(sym, cov, parties, buf, cancel=None, native=False, eager=False, T=1, J=2
                         if cancel_by == i and idx == cop:
                             fire_cancel()
                         send_order.append(item)
+                        enq_cycle[item] = loop.cycles + (0 if prog[0] == "s" else 1)
                         if prog[0] == "s":
                             try:
                                 tx.send_nowait(item)
